@@ -87,9 +87,8 @@ fn from_addr(a: IpAddr) -> (bool, u128) {
 }
 
 fn hash_of<T: Hash>(t: &T) -> u64 {
-    let mut h = DefaultHasher::new();
-    t.hash(&mut h);
-    h.finish()
+    // SipHash and a word-at-a-time hasher (sensitive to the sequence of write calls)
+    crate::core::hash2_of(t)
 }
 
 /// Does the library value denote the model value?
